@@ -159,6 +159,28 @@ fn crash_verify() {
     assert!(got == as_bytes(&before) || got == as_bytes(&after),
         "{what}: recovered keys {:?}; acknowledged history gives {:?}, with the in-flight operation {:?}",
         got.keys().collect::<Vec<_>>(), before, after);
+    // every file under cas/ (orphans included) holds the complete content its name promises: a later put of the
+    // same content would rely on it
+    {
+        fn walk(d: &std::path::Path, out: &mut Vec<std::path::PathBuf>) {
+            if let Ok(rd) = std::fs::read_dir(d) {
+                for e in rd.flatten() {
+                    let p = e.path();
+                    if p.is_dir() { walk(&p, out); } else { out.push(p); }
+                }
+            }
+        }
+        let root = db.join("cas");
+        let mut files = Vec::new();
+        walk(&root, &mut files);
+        for f in files {
+            let rel: String = f.strip_prefix(&root).unwrap().components().map(|c| c.as_os_str().to_string_lossy().to_string()).collect();
+            if rel.len() != 64 { continue; }
+            let data = std::fs::read(&f).unwrap();
+            let hex: String = blake3::hash(&data).as_bytes().iter().map(|b| format!("{b:02x}")).collect();
+            assert_eq!(hex, rel, "{what}: the file {f:?} under cas/ does not hold the content of its name ({} bytes): incomplete blob", data.len());
+        }
+    }
     // statistics of the recovered store are exact for what it holds
     {
         let uniq: BTreeMap<Vec<u8>, usize> = got.values().map(|v| (v.clone(), v.len())).collect();
